@@ -565,6 +565,16 @@ func nestedParse() error {
 // resultOf is what the evaluation callback returns in its id-th call: mostly a tagged value, sometimes nil (a result
 // like any other: it must become the head's value, not be replaced by something else) or a plain integer.
 func resultOf(id int) any {
+	// results that are nil pointers of a concrete type (no alternatives, no handles, nothing declared): they are values
+	// like any other and keep their type
+	switch id % 23 {
+	case 7:
+		return (*int)(nil)
+	case 13:
+		return (*tag)(nil)
+	case 19:
+		return (*lr.Value)(nil)
+	}
 	switch id % 5 {
 	case 2:
 		return nil
@@ -585,6 +595,17 @@ func boxed(id int) *lr.Value {
 }
 
 func isResultOf(v any, id int) bool {
+	switch id % 23 {
+	case 7:
+		x, ok := v.(*int)
+		return ok && x == nil
+	case 13:
+		x, ok := v.(*tag)
+		return ok && x == nil
+	case 19:
+		x, ok := v.(*lr.Value)
+		return ok && x == nil
+	}
 	switch w := resultOf(id).(type) {
 	case nil:
 		return v == nil
